@@ -162,7 +162,10 @@ def gen_invalid(rng, valid):
     if k == 0:
         return 'unbalanced', rng.choice((
             '=(' + valid[1:], '=%s)+(%s' % (a, b), '=(%s))+((%s)' % (a, b),
-            '=SUM(%s))*((%s)' % (a, b), '=%s)&(%s' % (a, valid[1:])))
+            '=SUM(%s))*((%s)' % (a, b), '=%s)&(%s' % (a, valid[1:]),
+            # a brace closing parentheses and the other way round
+            '=((%s}' % a, '={(%s})' % a, '={%s))' % a, '=SUM({%s,%s))' % (a, b),
+            '=(%s,{%s)}' % (a, b)))
     if k == 1:
         return 'unbalanced', valid + ')'
     if k == 2:
